@@ -273,7 +273,7 @@ def compare_dag(prog, dag, modname):
     for i, nid in nmap.items():
         n = prog['nodes'][nid]
         mode = n.get('mode')
-        if n.get('generic_of'):
+        if n.get('generic_of') and not n.get('attrs_tags'):
             mode = prog['nodes'][n['generic_of']].get('mode')
         if mode in ('async', 'async_tagged'):
             continue
@@ -600,6 +600,20 @@ def work_c16(prop, tier, seed, widx, nworkers):
             if len(acc.samples) < 1:
                 acc.samples.append({'defect': d, 'at': nid, 'via': case['via'], 'expected_error': exp,
                                     'source_tail': materialize.render(p)[-900:]})
+    # single-node pipelines (the input node is the output node): the same defects must be rejected there too
+    for mode in ('async', 'thread', 'inline'):
+        single = {'nodes': {'N0': {'id': 'N0', 'mode': mode, 'params': [], 'kind': 'plain', 'plan': {}, 'plain_params': ['x']}},
+                  'order': ['N0'], 'input': 'N0', 'output': 'N0', 'tags': []}
+        for d in DEFECTS:
+            r = inject(single, 'N0', d)
+            if r is None:
+                continue
+            p1, exp = r
+            case = {'prog': p1, 'what': 'c16', 'expect': exp, 'defect': d, 'at': 'N0', 'via': ['single_node']}
+            fs = _c16_one(case)
+            acc.evaluations += 1
+            acc.counters['single_node_defects'] = acc.counters.get('single_node_defects', 0) + 1
+            _collect(acc, prop, fs, case, p1)
     # build_node checks
     class _NoProc:
         pass
